@@ -15,7 +15,7 @@ INFO = {
                    'all lifetimes and reply delays: bytes reach the face iff now <= arrival + lifetime and the callback '
                    'returns True exactly in that case.',
     'bounds': {'quick': {'history': '0..3 operations over the prefixes / /a /b /a/a /a/b /a/a/a /b/a in 4 key '
-                                    'representations', 'interest_names': '7 tree names + 3 off-tree extensions',
+                                    'representations; 4 operations over the chain /a /a/a /a/a/a', 'interest_names': '7 tree names + 3 off-tree extensions',
                          'lifetime_ms': 'absent or [0,2^32)', 'reply_delay_ms': '[0,2^33)', 'clock_offset': '[0,2^40)'},
                'thorough': {'history': '0..4 operations'}},
     'outside': ['prefix names outside the 7-node tree (trie keys are hashed, hence concrete per path)'],
@@ -100,7 +100,8 @@ def _dispatch(eng, case, front):
                 eng.fail('attach-detach-no-error', exc_sig(e), {'op': op, 'prefix': p})
         except Exception as e:
             eng.fail('attach-detach-no-error', exc_sig(e), {'op': op, 'prefix': p})
-    iname = INAMES[eng.choice(len(INAMES), 'iname')]
+    im = case.get('inames') or INAMES
+    iname = im[eng.choice(len(im), 'iname')]
     wire = bytes(enc.make_interest(iname, enc.InterestParam(nonce=4)))
     exp = None
     for p, hid in model.items():
@@ -240,6 +241,9 @@ def cases(tier, seed):
             if quick and h != 'dispatch_v2' and reprs != [0, 1, 2]:
                 continue
             cs.append((h, {'ops': 3, 'reprs': reprs, 'prefixes': sub}, {'weight': 300, 'split_depth': 4}))
+        # four operations on one chain of nested prefixes (a detached prefix between two attached ones needs 4)
+        cs.append((h, {'ops': 4, 'reprs': [0, 1, 2, 3], 'prefixes': ['/a', '/a/a', '/a/a/a'],
+                       'inames': ['/a', '/a/a', '/a/a/a', '/a/a/z', '/a/a/a/z', '/c']}, {'weight': 300, 'split_depth': 4}))
         if not quick:
             cs.append((h, {'ops': 4, 'reprs': [0, 3, 1, 2], 'prefixes': sub[1:]}, {'weight': 2000, 'split_depth': 5}))
     cs.append(('reply', {}))
